@@ -32,6 +32,8 @@ type emitter struct {
 	nlin     int
 	usesQ    bool
 	pendingDefs []*Term
+	seq      int
+	prodNames map[string]string
 }
 
 func smtInt(k *big.Int) string {
@@ -146,6 +148,14 @@ func (e *emitter) ref(t *Term, bv map[string]bool) string {
 		return smtName(t.Name)
 	}
 	e.declSorts(t)
+	if ds, ok := e.f.Defs[t]; ok {
+		for _, d := range ds {
+			if !e.declared[fmt.Sprintf("def:%d", d.id)] {
+				e.declared[fmt.Sprintf("def:%d", d.id)] = true
+				e.pendingDefs = append(e.pendingDefs, d)
+			}
+		}
+	}
 	expr := e.expr(t, bv)
 	if e.dependsOnBound(t, bv) {
 		return expr // inline under binder
@@ -154,7 +164,8 @@ func (e *emitter) ref(t *Term, bv map[string]bool) string {
 		e.names[t] = expr
 		return expr
 	}
-	n := fmt.Sprintf("t%d", t.id)
+	e.seq++
+	n := fmt.Sprintf("t%d", e.seq)
 	fmt.Fprintf(&e.sb, "(define-fun %s () %s %s)\n", n, t.S.Name, expr)
 	e.names[t] = n
 	return n
@@ -288,10 +299,24 @@ func (e *emitter) prodVar(atoms []*Term, bv map[string]bool) string {
 	for _, a := range atoms {
 		ids = append(ids, fmt.Sprint(a.id))
 	}
-	n := "p_" + strings.Join(ids, "_")
-	if e.declared[n] {
+	key := "p_" + strings.Join(ids, "_")
+	if e.prodNames == nil {
+		e.prodNames = map[string]string{}
+	}
+	if n, ok := e.prodNames[key]; ok {
 		return n
 	}
+	// the atoms first (so that the product's name follows a deterministic emission order)
+	var anames []string
+	for _, a := range atoms {
+		anames = append(anames, strings.Trim(e.ref(a, bv), "|"))
+	}
+	e.seq++
+	n := fmt.Sprintf("p%d", e.seq)
+	if len(atoms) == 2 && len(anames[0])+len(anames[1]) < 40 && !strings.ContainsAny(anames[0]+anames[1], " ()") {
+		n = smtName("p!" + anames[0] + "*" + anames[1])
+	}
+	e.prodNames[key] = n
 	e.declared[n] = true
 	fmt.Fprintf(&e.sb, "(declare-fun %s () Int)\n", n)
 	// bound from ranges of the atoms (sound: interval product)
